@@ -114,9 +114,14 @@ structure World where
   scolls : List (Nat × SColl)
   strees : List (Nat × STree)
   sbuilders : List (Nat × SBuilder)
+  /-- model / spec bytes of the last `ssz`, values of the last `ser`, result of the last `lvnodes` -/
+  lastSsz : List UInt8 × List UInt8 := ([], [])
+  lastSer : List V × List V := ([], [])
+  lastLv : Nat × List Nat := (0, [])
 
 def World.init (E : Elem V Hh) (cfg : Cfg) : World :=
-  ⟨E, cfg, Heap.empty, [], [], [], [], [], []⟩
+  { E := E, cfg := cfg, heap := Heap.empty, colls := [], trees := [], builders := [], scolls := [],
+    strees := [], sbuilders := [] }
 
 /-! ## Node-graph dump -/
 
@@ -602,7 +607,7 @@ def step (w : World) (line : String) : World × Out :=
             { w with trees := slotSet w.trees (t0 + p.2) p.1,
                      strees := slotSet w.strees (t0 + p.2) ⟨treeLeaves p.1, subDepth⟩ }) w
           let out := s!"ok {nodes.length}" ++ String.join (nodes.map (fun t => s!" {t.computeLen}"))
-          (w1, (out, "*"))
+          ({ w1 with lastLv := (t0, nodes.map Tree.computeLen) }, (out, "*"))
         | .error e => (w, (fmtErr e, "*"))
       | _, _ => badop
     | _, _, _ => badop
@@ -709,12 +714,13 @@ def step (w : World) (line : String) : World × Out :=
     | some hs =>
       match slotGet w.colls hs, slotGet w.scolls hs with
       | some c, some s =>
-        let m := match c.toVec pf with
+        let (m, mb) : String × List UInt8 := match c.toVec pf with
           | .ok vs =>
-            s!"ok {hexOfBytes (ByteArray.mk (sszEncode E vs).toArray)} len={sszBytesLen E vs}"
-          | .error e => fmtErr e
+            (s!"ok {hexOfBytes (ByteArray.mk (sszEncode E vs).toArray)} len={sszBytesLen E vs}",
+              sszEncode E vs)
+          | .error e => (fmtErr e, [])
         let sb := sszEncode E s.xs
-        (w, (m, s!"ok {hexOfBytes (ByteArray.mk sb.toArray)} len={sb.length}"))
+        ({ w with lastSsz := (mb, sb) }, (m, s!"ok {hexOfBytes (ByteArray.mk sb.toArray)} len={sb.length}"))
       | _, _ => badop
     | none => badop
   | ["unssz", hs, k, hex] =>
@@ -739,10 +745,10 @@ def step (w : World) (line : String) : World × Out :=
     | some hs =>
       match slotGet w.colls hs, slotGet w.scolls hs with
       | some c, some s =>
-        let m := match c.toVec pf with
-          | .ok vs => ("ok " ++ fmtVals vs).trimAscii.toString
-          | .error e => fmtErr e
-        (w, (m, ("ok " ++ fmtVals s.xs).trimAscii.toString))
+        let (m, mv) : String × List V := match c.toVec pf with
+          | .ok vs => (("ok " ++ fmtVals vs).trimAscii.toString, vs)
+          | .error e => (fmtErr e, [])
+        ({ w with lastSer := (mv, s.xs) }, (m, ("ok " ++ fmtVals s.xs).trimAscii.toString))
       | _, _ => badop
     | none => badop
   | "de" :: hs :: k :: rest =>
@@ -764,6 +770,101 @@ def step (w : World) (line : String) : World × Out :=
         | .error _ => (w, ("err serde", if ok then "ok" else "err *"))
       else badop
     | _, _ => badop
+  | ["unsszprev", hs, k] =>
+    match parseNat hs with
+    | some hs =>
+      let isVec := k = "vec"
+      if k ≠ "list" ∧ k ≠ "vec" then badop
+      else
+        let bs := w.lastSsz.1
+        let r := if isVec then sszDecodeVector E z cfg bs w.heap else sszDecodeList E z cfg bs w.heap
+        let spec : Option (List V) :=
+          match specDecode E w.lastSsz.2 with
+          | some xs => if isVec then (if xs.length = cfg.N then some xs else none)
+                       else (if xs.length ≤ cfg.N then some xs else none)
+          | none => none
+        match spec with
+        | some xs => storeNew hs r (some ⟨if isVec then .vector else .list, xs, false⟩) "ok"
+        | none => storeNew hs r none "err *"
+    | none => badop
+  | ["sszifok", hs, hex] =>
+    match parseNat hs, bytesOfHex hex with
+    | some hs, some expect =>
+      let m := match slotGet w.colls hs with
+        | none => "none"
+        | some c =>
+          match c.toVec pf with
+          | .ok vs =>
+            let b := ByteArray.mk (sszEncode E vs).toArray
+            if b = expect then "ok same" else s!"ok differs {hexOfBytes b}"
+          | .error e => fmtErr e
+      -- decoding succeeds only for the canonical encoding of an in-bounds collection
+      let sp := match slotGet w.scolls hs with
+        | none => "none"
+        | some _ => "ok same"
+      (w, (m, sp))
+    | _, _ => badop
+  | ["wf", hs] =>
+    match parseNat hs with
+    | some hs =>
+      match slotGet w.colls hs, slotGet w.scolls hs with
+      | some c, some s =>
+        let len := c.len
+        let count := match c.toVec pf with
+          | .ok vs => vs.length
+          | .error _ => 0
+        let gets := String.ofList ((List.range (len + 2)).map (fun i => if (c.get pf i).isSome then '1' else '0'))
+        let n := s.xs.length
+        let sgets := String.ofList ((List.range (n + 2)).map (fun i => if i < n then '1' else '0'))
+        (w, (s!"ok len={len} count={count} gets={gets}", s!"ok len={n} count={n} gets={sgets}"))
+      | _, _ => badop
+    | none => badop
+  | ["deprev", hs, k] =>
+    match parseNat hs with
+    | some hs =>
+      let vs := w.lastSer.1
+      let svs := w.lastSer.2
+      let mapErr (r : Except Err (Coll V × Heap Hh)) : Except Err (Coll V × Heap Hh) :=
+        match r with
+        | .ok x => .ok x
+        | .error _ => .error .ssz
+      if k = "list" then
+        let ok := svs.length ≤ cfg.N
+        match mapErr (Coll.tryFromIter pf z cfg vs w.heap) with
+        | .ok r => storeNew hs (.ok r) (if ok then some ⟨.list, svs, false⟩ else none) (if ok then "ok" else "err *")
+        | .error _ => (w, ("err serde", if ok then "ok" else "err *"))
+      else if k = "vec" then
+        let ok := svs.length = cfg.N
+        match mapErr (Coll.vectorFromIter pf z cfg vs w.heap) with
+        | .ok r => storeNew hs (.ok r) (if ok then some ⟨.vector, svs, false⟩ else none) (if ok then "ok" else "err *")
+        | .error _ => (w, ("err serde", if ok then "ok" else "err *"))
+      else badop
+    | none => badop
+  | ["pushnodes", b, d, l] =>
+    match parseNat b, parseNat d, parseNat l with
+    | some b, some d, some l =>
+      match Builder.new pf d l with
+      | .error e => (w, (fmtErr e, "*"))
+      | .ok bl =>
+        let (t0, lens) := w.lastLv
+        let rec go (k : Nat) (lens : List Nat) (bl : Builder V) (heap : Heap Hh) (acc : List V) :
+            Except Err (Builder V × Heap Hh × List V) :=
+          match lens with
+          | [] => .ok (bl, heap, acc)
+          | real :: rest =>
+            match slotGet w.trees (t0 + k), slotGet w.strees (t0 + k) with
+            | some tr, some st =>
+              let len := if rest.isEmpty then real else 2 ^ l
+              match bl.pushNode z heap tr len with
+              | .ok (bl', heap') => go (k+1) rest bl' heap' (acc ++ st.xs)
+              | .error e => .error e
+            | _, _ => .error .panic
+        match go 0 lens bl w.heap [] with
+        | .ok (bl', heap, acc) =>
+          ({ w with heap := heap, builders := slotSet w.builders b bl',
+                    sbuilders := slotSet w.sbuilders b ⟨acc, d, l⟩ }, ("ok", "*"))
+        | .error e => (w, (fmtErr e, "*"))
+    | _, _, _ => badop
   | "dump" :: rest =>
     match rest.mapM parseNat with
     | some hsl =>
